@@ -298,7 +298,11 @@ class XsdGlobals(XsdValidator, Collection[SchemaType]):
         extended_name = get_extended_qname(type_name, namespaces)
         xsi_type = self.types[extended_name]
         if xsi_type.is_derived(base_type):
-            return xsi_type
+            # A list type is not derived from its item type: it can't substitute
+            # an atomic type (XsdList.is_derived() matches also the item type).
+            if not xsi_type.is_list() or base_type.is_list() or not base_type.is_atomic() \
+                    or base_type.name in (nm.XSD_ANY_TYPE, nm.XSD_ANY_SIMPLE_TYPE):
+                return xsi_type
         elif isinstance(base_type, XsdSimpleType) and \
                 base_type.is_union() and not base_type.facets:
             # Can be valid only if the union doesn't have facets, see:
